@@ -451,3 +451,5 @@ def run(ctx, rep):
     r03e(ctx, rep, cr)
     r03g(ctx, rep, cr)
     r03h(ctx, rep, cr, cg)
+    import c13
+    c13.r13d(ctx, rep, cr)   # the decision never changes afterwards: no phase regression behind a logged decision
